@@ -4802,6 +4802,9 @@ class ParseCtx:
     def _parse_macro_call(self, lark_node_for_error: lark.Tree, macro: Macro, arguments: List[lark.Tree]):
         if len(arguments) != len(macro.arguments):
             raise IllegalParseTree("Incorrect number of arguments", lark_node_for_error)
+        if len(self.bound_argument_stack) >= 50:
+            # macros are expanded in place, so a macro that (directly or through others) always calls itself never ends
+            raise IllegalParseTree("Macro expansion nested too deeply (recursive macro?)", lark_node_for_error)
         self.bound_argument_stack.append(
             macro.bind_arguments_for(arguments, self)
         )
